@@ -181,6 +181,31 @@ theorem newPhrase_rel {a b : Shared D L} (h : MetaEq a b) : StepRel (newPhrase e
   · rfl
   · trivial
 
+theorem openPhrase_rel {a b : Shared D L} (h : MetaEq a b) : StepRel (openPhrase env a) (openPhrase env b) := by
+  have hn := newPhrase_rel env h
+  unfold openPhrase
+  rcases hn.cases with ⟨⟨x, u⟩, ⟨y, v⟩, h1, h2, hm, hv⟩ | ⟨p, h1, h2⟩ | ⟨h1, h2⟩ <;> rw [h1, h2]
+  · dsimp only at hm hv
+    subst hv
+    obtain ⟨t, k, rfl⟩ := hm.out
+    cases u with
+    | toState st =>
+      cases st with
+      | selecting s =>
+        dsimp only
+        rw [candidates_sm]
+        cases Selecting.candidates env s x with
+        | ok cs =>
+          cases cs with
+          | nil => exact (⟨(rfl : _ = _), rfl⟩ : PRel _ _)
+          | cons c cs => prel_leaf
+        | panic p => rfl
+        | outOfFuel => trivial
+      | _ => prel_leaf
+    | spin b => prel_leaf
+  · rfl
+  · trivial
+
 theorem newPhraseSimple_rel {a b : Shared D L} (h : MetaEq a b) : StepRel (newPhraseSimple a) (newPhraseSimple b) := by
   obtain ⟨t, k, rfl⟩ := h.out
   unfold newPhraseSimple
@@ -207,7 +232,7 @@ theorem startSelecting_rel {a b : Shared D L} (h : MetaEq a b) : StepRel (startS
   sm_norm
   repeat' split2
   all_goals first
-    | exact newPhrase_rel env (by meq)
+    | exact openPhrase_rel env (by meq)
     | exact newSpecialSymbol_rel (by meq) _
     | prel_leaf
 
@@ -218,7 +243,7 @@ theorem startSelectingOrInputSpace_rel {a b : Shared D L} (h : MetaEq a b) :
   sm_norm
   repeat' split2
   all_goals first
-    | exact newPhrase_rel env (by meq)
+    | exact openPhrase_rel env (by meq)
     | exact newSpecialSymbol_rel (by meq) _
     | prel_leaf
 
@@ -566,11 +591,28 @@ theorem selDownSpace_rel {a b : Shared D L} (h : MetaEq a b) (s : Selecting) :
     | rfl
     | trivial
 
+theorem closeIfEmpty_rel {x y : SelRes D L} (h : SelRel x y) :
+    ORel SelRel (closeIfEmpty env x) (closeIfEmpty env y) := by
+  obtain ⟨xs, xl, xt⟩ := x
+  obtain ⟨ys, yl, yt⟩ := y
+  obtain ⟨hm, hl, ht⟩ := h
+  dsimp only at hm hl ht
+  subst hl ht
+  obtain ⟨t, k, rfl⟩ := hm.out
+  unfold closeIfEmpty
+  sm_norm
+  repeat' split2
+  all_goals first
+    | exact (⟨(rfl : _ = _), rfl, rfl⟩ : SelRel _ _)
+    | selrel_leaf
+    | rfl
+    | trivial
+
 /-- the part of `selMove` after `retarget` -/
 def selMovePost (s : Selecting) (r : StepRes D L) : Outcome (SelRes D L) :=
   match r with
-  | .ok (sh', .toState (.selecting s')) => .ok ⟨sh', s', .spin .absorb⟩
-  | .ok (sh', _) => .ok ⟨sh', s, .spin .absorb⟩
+  | .ok (sh', .toState (.selecting s')) => closeIfEmpty env ⟨sh', s', .spin .absorb⟩
+  | .ok (sh', _) => closeIfEmpty env ⟨sh', s, .spin .absorb⟩
   | .panic q => .panic q
   | .outOfFuel => .outOfFuel
 
@@ -582,23 +624,23 @@ def selMoveCom (s : Selecting) (sh : Shared D L) (isJ : Bool) : CompEditor :=
 theorem selMove_eq (s : Selecting) (sh : Shared D L) (isJ : Bool) :
     selMove env s sh isJ =
       if sh.com.isEmpty then .ok ⟨sh, s, .spin .ignore⟩
-      else selMovePost s (retarget env s { sh with com := selMoveCom s sh isJ }) := rfl
+      else selMovePost env s (retarget env s { sh with com := selMoveCom s sh isJ }) := rfl
 
 theorem selMovePost_rel (s : Selecting) {r₁ r₂ : StepRes D L} (h : StepRel r₁ r₂) :
-    ORel SelRel (selMovePost s r₁) (selMovePost s r₂) := by
+    ORel SelRel (selMovePost env s r₁) (selMovePost env s r₂) := by
   rcases h.cases with ⟨⟨x, u⟩, ⟨y, v⟩, h1, h2, hm, hv⟩ | ⟨p, h1, h2⟩ | ⟨h1, h2⟩ <;> subst h1 h2
   · dsimp only at hm hv
     subst hv
     unfold selMovePost
     split2
     · rename_i e1; injection e1 with e1; injection e1 with e1 e2; subst e1 e2
-      exact ⟨hm, rfl, rfl⟩
+      exact closeIfEmpty_rel env ⟨hm, rfl, rfl⟩
     · rename_i hne e1; injection e1 with e1; injection e1 with e1 e2; subst e1 e2
       split
       · rename_i e3; injection e3 with e3; injection e3 with e3 e4; subst e4
         exact (hne _ rfl).elim
       · rename_i e3; injection e3 with e3; injection e3 with e3 e4; subst e3
-        exact ⟨hm, rfl, rfl⟩
+        exact closeIfEmpty_rel env ⟨hm, rfl, rfl⟩
       · rename_i e3; cases e3
       · rename_i e3; cases e3
     · rename_i e1; cases e1
@@ -611,7 +653,7 @@ theorem selMove_rel {a b : Shared D L} (h : MetaEq a b) (s : Selecting) (isJ : B
   obtain ⟨t, k, rfl⟩ := h.out
   rw [selMove_eq, selMove_eq]
   refine orel_ite (fun _ => by selrel_leaf) fun _ => ?_
-  exact selMovePost_rel s (retarget_rel env (by meq) s)
+  exact selMovePost_rel env s (retarget_rel env (by meq) s)
 
 theorem selPrevPage_rel {a b : Shared D L} (h : MetaEq a b) (s : Selecting) :
     ORel SelRel (selPrevPage env s a) (selPrevPage env s b) := by
